@@ -12,6 +12,29 @@ CLAIMED = {
          "integer cases, the harness, JAX as executor. Rounding is outside the theorems. GeneralQSM theorem pending (correspondence+oracle only).",
     technique="Coq proof (scan invariant by induction over n) + exact model/implementation correspondence",
     ref="DESIGN.md section 6, C04"),
+ "C05": dict(
+    text="Exact-integer correspondence of the Gallina model of ops.py/self_add/self_mul/gram with the implementation over all 49 "
+         "ordered kind pairs x {+,-,*,@}, unary -, scalar *, gram and result trees (result kind, orders, None-ness, dense value), "
+         "plus a numpy oracle on dense renderings; theorems (add/hadamard/matmul soundness) are being added to Props/C05.v.",
+    note="Trusted: Coq kernel, hand-written model Model/QSMOps.v tied by correspondence, harness, JAX. Until the soundness theorems "
+         "land, the verdict rests on correspondence + oracle over generated cases (stated in evidence).",
+    technique="Coq model + exact model/implementation correspondence over all kind pairs; proofs in progress",
+    ref="DESIGN.md section 6, C05"),
+ "C06": dict(
+    text="Machine-checked theorems (any field, all n, m, c): forward substitution solves L x = y; the closed-form generators of "
+         "LowerTriQSM.inv give a two-sided inverse and its matmul scan equals the solve scan. Upper/square/symmetric inverses are "
+         "covered by tolerance correspondence of the model and a numpy.linalg oracle on well-conditioned inputs.",
+    note="Trusted: Coq kernel, model Model/QSMSolve.v tied by tolerance correspondence (1e-9*scale), numpy oracle. Rounding outside the theorems. "
+         "Square/Symm inverse theorems pending.",
+    technique="Coq proof (induction over scan length, same-recurrence argument) + tolerance correspondence",
+    ref="DESIGN.md section 6, C06"),
+ "C07": dict(
+    text="Machine-checked theorem over every real-closed field: when all pivots of the recursion are positive, SymmQSM.cholesky of the model "
+         "returns a lower-triangular factor of the same size/order with positive diagonal and L L^T = A, for all n and m; the model is tied to "
+         "core.py by tolerance correspondence on SPD matrices produced by kernels+noise, sums, products, inverses and Gram products.",
+    note="Trusted: Coq kernel, model, harness, numpy oracle. 'pivots positive <=> A SPD' and rounding are outside the theorem so far.",
+    technique="Coq proof over rcfType (invariant f_k = sum P w w^T P^T) + tolerance correspondence",
+    ref="DESIGN.md section 6, C07"),
 }
 NOT_YET = {}
 
